@@ -93,6 +93,13 @@ def lean_phase(pid, theorems, modules, tier="quick"):
         elif rc != 0:
             res["tie_ok"] = False
             res["notes"].append("constants translator failed: " + out.strip()[-400:])
+        # logic leg of the translator: loop bodies of the recurrence ciphers -> Gen/Code.lean
+        rc, out = run([sys.executable, os.path.join(VERIF, "tools", "gen_code.py"), REPO, os.path.join(LEAN, "WowSrp", "Gen", "Code.lean")])
+        if rc == 3:
+            res["notes"].append("code translator: " + out.strip()[-400:])
+        elif rc != 0:
+            res["tie_ok"] = False
+            res["notes"].append("code translator failed: " + out.strip()[-400:])
         t0 = time.time()
         rc, out = run(["lake", "build", "wowsrp_model"], cwd=LEAN, timeout=3600)
         if rc != 0:
